@@ -177,7 +177,7 @@ var printToFprint = map[string]string{"Print": "Fprint", "Println": "Fprintln", 
 var scanToFscan = map[string]string{"Scan": "Fscan", "Scanln": "Fscanln", "Scanf": "Fscanf"}
 var osVars = map[string]string{"Stdout": "Stdout", "Stderr": "Stderr", "Stdin": "Stdin", "Args": "Args"}
 var osFuncs = map[string]string{
-	"Exit": "Exit", "ReadFile": "ReadFile", "Open": "Open",
+	"Exit": "Exit", "ReadFile": "ReadFile", "Open": "Open", "Stat": "Stat", "Lstat": "Lstat",
 	"Getpid": "Getpid", "Getppid": "Getppid", "Hostname": "Hostname",
 	"Getenv": "Getenv", "LookupEnv": "LookupEnv", "Environ": "Environ",
 }
@@ -186,7 +186,7 @@ var timeFuncs = map[string]string{"Now": "Now", "Since": "Since", "Until": "Unti
 // os functions that touch the real host and that the simulator does not model
 var osUnmodelled = map[string]bool{
 	"Create": true, "OpenFile": true, "WriteFile": true, "Remove": true, "RemoveAll": true, "Mkdir": true,
-	"MkdirAll": true, "ReadDir": true, "Stat": true, "Lstat": true, "Getwd": true, "Chdir": true,
+	"MkdirAll": true, "ReadDir": true, "Getwd": true, "Chdir": true,
 	"Setenv": true, "Unsetenv": true, "Executable": true, "UserHomeDir": true, "TempDir": true, "Getuid": true,
 	"StartProcess": true, "Pipe": true, "Rename": true,
 }
